@@ -178,3 +178,91 @@ func VxC18BlockTransactionsMigration() {
 	_, any, err := getFirstBlockToMigrate(d)
 	vx.Assert(err == nil && !any, "old-buckets-empty-when-complete")
 }
+
+// C18-H8: resumption from ANY state an interrupted run can leave. The migration converts the chain in ranges of
+// 10 blocks; a range is converted atomically (its combined records and the deletion of its old entries are one
+// batch), but the batches of the four ingestors hold interleaved ranges and are committed one after the other,
+// so a kill (or a failing batch write) between two commits leaves an arbitrary SUBSET of the ranges converted -
+// not necessarily a prefix. The database is put directly into such a state: chain of 25 blocks (ranges 0..9,
+// 10..19, 20..24), each range either without transactions or with one transaction in its first block, an
+// arbitrary subset of the ranges already in the combined layout and the rest in the old per-transaction layout.
+// Then the real migration runs to completion (uninterrupted). Afterwards every block has its combined record,
+// every stored transaction and receipt reads back through the current accessors, and the old buckets are empty:
+// a converted range is not converted again from its (now empty) old entries, and a range of empty blocks that
+// was not reached is not forgotten.
+func VxC18BlockTransactionsResumeFromAnyCommittedSubset() {
+	vx.Bound("chain of 25 blocks = 3 ranges; per range: no transactions | one invoke transaction in its first block; any subset of the ranges already converted (combined layout), the others in the old layout; one uninterrupted run of the real migration (bounded by reads); one schedule per path")
+	if vx.InEngine() {
+		vx.Stub("(*github.com/NethermindEth/juno/migration/blocktransactions.counter).log", vxNoLog)
+		vx.Stub("iter.Pull2", vxPull2[prefix.Entry[core.Transaction], error])
+	}
+	d := memory.New()
+	const nblocks = 25
+	txs := make([][]core.Transaction, nblocks)
+	rcs := make([][]*core.TransactionReceipt, nblocks)
+	anyOld := false
+	for r := 0; r < 3; r++ {
+		first, last := 10*r, min(10*r+9, nblocks-1)
+		hasTx := vx.Choice("range-has-a-transaction", 2) == 1
+		converted := vx.Choice("range-already-converted", 2) == 1
+		if converted {
+			vx.Cover("a-range-is-already-converted")
+		} else if !hasTx {
+			vx.Cover("an-unconverted-range-of-empty-blocks")
+		} else {
+			anyOld = true
+		}
+		for b := first; b <= last; b++ {
+			if hasTx && b == first {
+				h := felt.NewFromUint64[felt.Felt](9000 + uint64(b))
+				txs[b] = []core.Transaction{&core.InvokeTransaction{TransactionHash: h, Version: new(core.TransactionVersion).SetUint64(1)}}
+				rcs[b] = []*core.TransactionReceipt{{TransactionHash: h, Fee: &felt.Zero}}
+			}
+			layout := txlayout.TransactionLayoutPerTx
+			if converted {
+				layout = txlayout.TransactionLayoutCombined
+			}
+			hdr := &core.Header{Number: uint64(b), TransactionCount: uint64(len(txs[b]))}
+			if core.BlockHeadersByNumberBucket.Put(d, uint64(b), hdr) != nil ||
+				layout.WriteTransactionsAndReceipts(d, uint64(b), txs[b], rcs[b]) != nil {
+				vx.Assume(false)
+			}
+		}
+	}
+	_ = anyOld
+	if core.WriteChainHeight(d, nblocks-1) != nil {
+		vx.Assume(false)
+	}
+	done := false
+	for run := 0; run < 2 && !done; run++ {
+		ctx, cancel := context.WithCancel(context.Background())
+		n := 0
+		var store db.KeyValueStore = vxCancelDB{KeyValueStore: d, n: &n, at: 150, cancel: cancel}
+		st, err := Migrator{}.Migrate(ctx, store, nil, log.NewNopZapLogger())
+		cancel()
+		vx.Assert(err == nil, "migrate-no-error")
+		if err != nil {
+			return
+		}
+		done = st == nil
+	}
+	vx.Assert(done, "run-completes")
+	if !done {
+		return
+	}
+	for b := 0; b < nblocks; b++ {
+		has, err := core.BlockTransactionsBucket.Has(d, uint64(b))
+		vx.Assert(err == nil && has, "every-block-has-its-combined-record-when-complete")
+		got, err := core.GetTransactionsByBlockNumber(d, uint64(b))
+		vx.Assert(err == nil && len(got) == len(txs[b]), "transactions-of-every-block-readable-when-complete")
+		for i := range got {
+			if i < len(txs[b]) {
+				vx.Assert(got[i].Hash().Equal(txs[b][i].Hash()), "transactions-read-back-are-the-ones-stored")
+			}
+		}
+		rs, err := core.GetReceiptsByBlockNumber(d, uint64(b))
+		vx.Assert(err == nil && len(rs) == len(rcs[b]), "receipts-of-every-block-readable-when-complete")
+	}
+	_, any, err := getFirstBlockToMigrate(d)
+	vx.Assert(err == nil && !any, "old-buckets-empty-when-complete")
+}
